@@ -6,7 +6,7 @@ LEVEL = "proof"
 FUNCTIONS = [
     "LimitOrderBook.mid_price", "LimitOrderBook.acq_price", "LimitOrderBook.liq_price",
     "BrokerFees.commissions", "Trade.__init__",
-    "Broker.marking_to_market", "Broker.transact", "Broker.holdings_values", "Broker.net_liquidation_value",
+    "Broker.__init__", "Broker.marking_to_market", "Broker.transact", "Broker.holdings_values", "Broker.net_liquidation_value",
 ]
 REPLAYERS = [
     ("Trade.__init__::", replayers.trade_init),
